@@ -215,6 +215,7 @@ static void judge(const std::string& op, const std::string& kase, Verdict v, Out
   n_eval++;
   n_class[v]++;
   if (v != MUST_PROCEED) n_nontriv++;
+  if ((n_eval % 997) == 1) sample("{\"case\":\"" + jesc(kase) + "\",\"model\":\"" + vn[v] + "\",\"outcome\":\"" + on(o) + "\"}", 5);
   std::string sg = "C10 mode=" + std::string(kMode) + " op=" + op + " model=" + vn[v];
   std::string why;
   switch (v) {
